@@ -4,8 +4,12 @@ Replaced in module namespaces for the duration of one run (nothing in /repo chan
   vgi_rpc.launcher.FileLock              -> scheduler lock (the OS file lock is trusted as a mutex)
   vgi_rpc.launcher._probe                -> park point "probe", then the REAL _probe (a real connect())
   vgi_rpc.launcher._unlink_stale_socket  -> park point "unlink", then the real function
-  vgi_rpc.launcher._spawn_worker         -> park point "spawn"; creates an in-process worker thread; park point
-                                            "ready" until that worker printed its UNIX: line or exited
+  vgi_rpc.launcher.subprocess            -> a namespace whose Popen is fake: the REAL _spawn_worker builds the worker's
+                                            argv and reads its stdout; Popen() is park point "spawn" and starts an
+                                            in-process worker thread on the `--unix` path it was given; every
+                                            stdout.readline() is park point "ready" (enabled when a line is there or the
+                                            worker exited) and delivers optional noise lines, then `UNIX:<bound path>`
+  a "g" thread runs the REAL gc_state_dir(state_dir) (FileLock(timeout=0) = park point "trylock", then non-blocking)
 A worker is the REAL `serve_unix(..., threaded=True)` prologue/epilogue on a real AF_UNIX socket in a private temp
 directory, with park points before _check_no_existing_listener ("wcheck"), before _unlink_stale_unix_socket + bind
 + listen + on_bound ("wbind"), inside the (replaced) accept loop ("wserve": the worker serves until the controller
@@ -28,13 +32,14 @@ from vf.sched import Scheduler, ShimLock
 sys.setswitchinterval(1e-5)
 
 _ORIG = {
-    "L": {k: getattr(L, k) for k in ("FileLock", "_probe", "_unlink_stale_socket", "_spawn_worker")},
+    "L": {k: getattr(L, k) for k in ("FileLock", "_probe", "_unlink_stale_socket", "subprocess")},
     "T": {k: getattr(T, k) for k in ("_check_no_existing_listener", "_unlink_stale_unix_socket",
                                      "_unlink_bound_unix_socket", "_serve_socket_threaded")},
 }
 
 LPC_LABEL = {"start": "start", "lock": "acq", "probe": "probe", "unlink": "unlink", "spawn": "spawn",
              "ready": "ready", "done": "EXIT"}
+GPC_LABEL = {"off": "", "start": "start", "try": "trylock", "probe": "probe", "done": "EXIT"}
 WST_LABEL = {"start": "start", "check": "wcheck", "bind": "wbind", "serving": "wserve", "closing": "wunlink",
              "gone": "EXIT", "failed": "EXIT"}
 
@@ -59,8 +64,9 @@ class _Srv:
 
 
 class LaunchWorld:
-    def __init__(self, n: int, use_gc: bool = True) -> None:
-        self.n = n
+    def __init__(self, n: int, hashed: bool = True, gc: bool = False) -> None:
+        self.n, self.hashed, self.with_gc = n, hashed, gc
+        self.next_noise = 0
         self.sched = Scheduler(step_timeout=20.0)
         self.dir = tempfile.mkdtemp(prefix="c33", dir="/tmp")
         self.flocks: dict[str, ShimLock] = {}
@@ -76,7 +82,16 @@ class LaunchWorld:
                 self.path = str(path)
                 self.lk = w.flocks.setdefault(self.path, ShimLock(w.sched, False, "FL"))
 
+                self.timeout = timeout
+
             def acquire(self, *a, **k):
+                if self.timeout == 0:                 # non-blocking (gc_state_dir): one look, then give up
+                    me = w.sched._me()
+                    w.sched.yield_point("trylock")
+                    if not self.lk.can_acquire(me):
+                        raise L.Timeout(self.path)
+                    self.lk.owner, self.lk.depth = me, self.lk.depth + 1
+                    return self
                 self.lk.acquire()
                 return self
 
@@ -91,7 +106,7 @@ class LaunchWorld:
                 self.release()
 
         def probe(path):
-            if w.sched._me() is not None and w.sched._me().startswith("l"):
+            if w.sched._me() is not None and w.sched._me()[0] in "lg":
                 w.sched.yield_point("probe")
             return _ORIG["L"]["_probe"](path)
 
@@ -99,13 +114,11 @@ class LaunchWorld:
             w.sched.yield_point("unlink")
             return _ORIG["L"]["_unlink_stale_socket"](path)
 
-        class Proc:
-            def __init__(self, pid):
-                self.pid, self.returncode = pid, None
-
         class Worker:
             def __init__(self, wid, path):
                 self.id, self.path = wid, path
+                self.noise = 0          # other lines it prints on stdout before the readiness line
+                self.line_read = False
                 self.ready = False      # the UNIX:<path> line was printed
                 self.exited = False
                 self.sock = None        # the listening socket serve_unix created (seen by the replaced accept loop)
@@ -138,18 +151,56 @@ class LaunchWorld:
                     return not self.exited
                 return self.sock.fileno() != -1
 
-        def spawn_worker(worker_argv, sock_path, idle_timeout, worker_stderr, startup_timeout):
-            w.sched.yield_point("spawn")
-            wk = Worker(len(w.workers) + 1, sock_path)
-            w.workers.append(wk)
-            me = w.sched._me()
-            w.spawned_by[wk.id] = int(me[1:]) if me and me[1:].isdigit() else 0
-            w._mon("Spawn", w=wk.id)
-            w.sched.spawn(f"w{wk.id}", wk.run)
-            w.sched.yield_point("ready", _Gate(lambda: wk.ready or wk.exited))  # type: ignore[arg-type]
-            if not wk.ready:
-                raise RuntimeError("worker exited before readiness (rc=1)")
-            return Proc(40000 + wk.id)
+        class Stdout:
+            """The worker's stdout as the launcher sees it."""
+
+            def __init__(self, wk):
+                self.wk = wk
+
+            def readline(self):
+                wk = self.wk
+                w.sched.yield_point("ready", _Gate(lambda: wk.noise > 0 or wk.ready or wk.exited))  # type: ignore[arg-type]
+                if wk.noise > 0:
+                    wk.noise -= 1
+                    return b"INFO some library greeting on stdout\n"
+                if wk.ready and not wk.line_read:
+                    wk.line_read = True
+                    return f"UNIX:{wk.path}\n".encode()
+                return b""
+
+            def __iter__(self):
+                return iter(())
+
+        class FakePopen:
+            """subprocess.Popen as the real _spawn_worker calls it: the worker command with --unix PATH --idle-timeout S"""
+
+            def __init__(self, argv, stdin=None, stdout=None, stderr=None, **kw):
+                w.sched.yield_point("spawn")
+                argv = list(argv)
+                path = argv[argv.index("--unix") + 1] if "--unix" in argv else ""
+                w.last_argv = argv
+                wk = Worker(len(w.workers) + 1, path)
+                wk.noise = w.next_noise
+                w.workers.append(wk)
+                me = w.sched._me()
+                w.spawned_by[wk.id] = int(me[1:]) if me and me[1:].isdigit() else 0
+                w._mon("Spawn", w=wk.id)
+                w.sched.spawn(f"w{wk.id}", wk.run)
+                self.wk, self.pid, self.returncode = wk, 40000 + wk.id, None
+                self.stdout = Stdout(wk)
+
+            def wait(self, timeout=None):
+                self.returncode = 1 if self.wk.exited else None
+                return self.returncode
+
+            def terminate(self):
+                pass
+
+            def kill(self):
+                pass
+
+            def poll(self):
+                return 1 if self.wk.exited else None
 
         def _me_worker():
             me = w.sched._me()
@@ -174,8 +225,14 @@ class LaunchWorld:
             return _ORIG["T"]["_unlink_bound_unix_socket"](path, identity)
 
         self.spawned_by: dict[int, int] = {}
+        import subprocess as _sp
+        import types as _types
+
+        sp_ns = _types.SimpleNamespace(**{k: getattr(_sp, k) for k in dir(_sp) if not k.startswith("__")})
+        sp_ns.Popen = FakePopen
+        self.last_argv: list = []
         self._patch = {"L": {"FileLock": FakeFileLock, "_probe": probe, "_unlink_stale_socket": unlink_stale,
-                             "_spawn_worker": spawn_worker},
+                             "subprocess": sp_ns},
                        "T": {"_check_no_existing_listener": wcheck, "_unlink_stale_unix_socket": wbind,
                              "_unlink_bound_unix_socket": wunlink, "_serve_socket_threaded": wserve}}
 
@@ -185,7 +242,8 @@ class LaunchWorld:
             setattr(L, k, v)
         for k, v in self._patch["T"].items():
             setattr(T, k, v)
-        cfg = L.LaunchConfig(worker_argv=("fake-worker", "--x"), state_dir=self.dir, idle_timeout=5.0)
+        cfg = L.LaunchConfig(worker_argv=("fake-worker", "--x"), state_dir=self.dir, idle_timeout=5.0,
+                             socket_path=None if self.hashed else os.path.join(self.dir, "explicit.sock"))
 
         def body(i):
             try:
@@ -195,6 +253,10 @@ class LaunchWorld:
 
         for i in range(1, self.n + 1):
             self.sched.spawn(f"l{i}", body, i)
+        if self.with_gc:
+            from pathlib import Path
+
+            self.sched.spawn("g", lambda: L.gc_state_dir(Path(self.dir)))
         return self
 
     def __exit__(self, *exc) -> None:
@@ -245,7 +307,10 @@ class LaunchWorld:
         inos = [getattr(wk, "ino", None) for wk in self.workers]
         return {"ll": [_lab(s.label(f"l{i}")) for i in range(1, self.n + 1)],
                 "wl": [_lab(s.label(f"w{wk.id}")) for wk in self.workers],
-                "lk": int(owner[1:]) if owner else 0,
+                "lk": (100 if owner == "g" else int(owner[1:])) if owner else 0,
+                "gl": _lab(s.label("g")) if self.with_gc else "",
+                "meta": any(f.endswith(".meta") for f in os.listdir(self.dir)),
+                "nz": [wk.noise for wk in self.workers],
                 "path": self.path_owner(),
                 "wo": [wk.is_open() for wk in self.workers],
                 "ic": [0 if x is None else inos.index(x) + 1 for x in inos],
@@ -263,8 +328,10 @@ class LaunchWorld:
             c.close()
 
     # ------------------------------------------------------------------ operations
-    def step(self, kind: str, k: int) -> dict:
-        name = f"{'l' if kind == 'L' else 'w'}{k}"
+    def step(self, kind: str, k: int = 0, noise: int | None = None) -> dict:
+        name = "g" if kind == "G" else f"{'l' if kind == 'L' else 'w'}{k}"
+        if noise is not None:
+            self.next_noise = noise
         had = k in self.results
         self.sched.step(name)
         ok = False
@@ -284,6 +351,9 @@ class LaunchWorld:
         for n in list(s.threads):
             if not s.enabled(n):
                 continue
+            if n == "g":
+                ops.append(("G", 0))
+                continue
             k = int(n[1:])
             if n.startswith("w") and s.label(n) == "wserve" and k in waiting:
                 continue      # environment assumption: no idle exit while the spawner waits for the readiness line
@@ -299,18 +369,32 @@ def project(state: dict, n: int) -> dict:
     nw = state["nW"]
     return {"ll": [LPC_LABEL[f(state["pc"], i)] for i in range(1, n + 1)],
             "wl": [WST_LABEL[f(state["wst"], w)] for w in range(1, nw + 1)],
-            "lk": state["lk"], "path": state["path"],
+            "lk": 100 if state["lk"] > len(state["pc"]) else state["lk"], "path": state["path"],
+            "gl": GPC_LABEL[state["gpc"]], "meta": state["meta"],
+            "nz": [f(state["noise"], w) for w in range(1, nw + 1)],
             "ic": [f(state["ino"], w) for w in range(1, nw + 1)],
             "res": [{"probe": "path", "spawn": "path"}.get(f(state["res"], i), f(state["res"], i)) for i in range(1, n + 1)]}
 
 
-def run_path(behaviour: list[dict], n: int) -> dict:
+def step_action(w: "LaunchWorld", action: str, args: list) -> dict:
+    """Execute one Launcher.tla action on the real code."""
+    if action.startswith("G"):
+        return w.step("G")
+    if action == "LSpawn":
+        return w.step("L", int(args[0]), noise=int(args[1]) if len(args) > 1 else 0)
+    return w.step("L" if action.startswith("L") else "W", int(args[0]))
+
+
+def header(w: "LaunchWorld") -> dict:
+    return {"hashed": w.hashed, "gpc0": "start" if w.with_gc else "off"}
+
+
+def run_path(behaviour: list[dict], n: int, hashed: bool = True, gc: bool = False) -> dict:
     drift = None
-    with LaunchWorld(n) as w:
+    with LaunchWorld(n, hashed=hashed, gc=gc) as w:
         for i, b in enumerate(behaviour):
-            kind = "L" if b["action"].startswith("L") else "W"
             try:
-                ev = w.step(kind, int(b["args"][0]))
+                ev = step_action(w, b["action"], b["args"])
             except Exception as e:  # noqa: BLE001
                 drift = {"step": i, "action": b["action"], "args": b["args"], "error": repr(e)}
                 break
@@ -320,22 +404,23 @@ def run_path(behaviour: list[dict], n: int) -> dict:
                 drift = {"step": i, "action": b["action"], "args": b["args"], "fields": d,
                          "observed": {k: ev[k] for k in d}, "expected": {k: exp[k] for k in d}}
                 break
-        out = {"trace": list(w.trace), "mon": list(w.mon), "drift": drift,
+        out = {"header": header(w), "trace": list(w.trace), "mon": list(w.mon), "drift": drift,
                "errors": {k: repr(v) for k, v in w.sched.errors.items()},
                "results": {k: v[0] for k, v in w.results.items()}}
     return out
 
 
-def run_random(rng, n: int, max_steps: int = 80) -> dict:
-    with LaunchWorld(n) as w:
+def run_random(rng, n: int, max_steps: int = 90, hashed: bool = True, gc: bool = False) -> dict:
+    with LaunchWorld(n, hashed=hashed, gc=gc) as w:
         for _ in range(max_steps):
             ops = w.enabled_ops()
             if not ops:
                 break
             # launchers move more eagerly than workers idle-exit, so that reuse and respawn both occur
-            weights = [1 if (k == "W" and w.sched.label(f"w{i}") == "wserve") else 4 for k, i in ops]
-            w.step(*rng.choices(ops, weights)[0])
-        out = {"trace": list(w.trace), "mon": list(w.mon), "drift": None,
+            weights = [1 if (k == "W" and w.sched.label(f"w{i}") == "wserve") else (2 if k == "G" else 4) for k, i in ops]
+            k, i = rng.choices(ops, weights)[0]
+            w.step(k, i, noise=rng.choice([0, 0, 1]) if k == "L" and w.sched.label(f"l{i}") == "spawn" else None)
+        out = {"header": header(w), "trace": list(w.trace), "mon": list(w.mon), "drift": None,
                "errors": {k: repr(v) for k, v in w.sched.errors.items()},
                "results": {k: v[0] for k, v in w.results.items()}}
     return out
@@ -404,7 +489,8 @@ def online_walks(g, n: int, rng, *, max_walks: int, max_len: int = 60, key=None,
             break
         node = rng.choice(g.init)
         drift = None
-        with LaunchWorld(n) as w:
+        st0 = g.state(node)
+        with LaunchWorld(n, hashed=st0["hashed"], gc=st0["gpc"] != "off") as w:
             for step_no in range(max_len):
                 lab = plan(node)
                 if lab is None:
@@ -413,9 +499,8 @@ def online_walks(g, n: int, rng, *, max_walks: int, max_len: int = 60, key=None,
                         break
                     lab = rng.choice(es)[0]
                 act, _, arg = lab.partition("(")
-                k = int(arg.rstrip(")"))
                 try:
-                    ev = w.step("L" if act.startswith("L") else "W", k)
+                    ev = step_action(w, act, [a.strip() for a in arg.rstrip(")").split(",")] if arg else [])
                 except Exception as e:  # noqa: BLE001
                     drift = {"step": step_no, "action": lab, "error": repr(e)}
                     break
@@ -428,12 +513,12 @@ def online_walks(g, n: int, rng, *, max_walks: int, max_len: int = 60, key=None,
                             break
                 if nxt is None:
                     cands = [project(g.state(v), n) for l2, v in g.out.get(node, []) if l2 == lab]
-                    drift = {"step": step_no, "action": lab, "observed": {f: ev[f] for f in ("ll", "wl", "lk", "path", "ic", "res")},
+                    drift = {"step": step_no, "action": lab, "observed": {f: ev[f] for f in ("ll", "wl", "lk", "path", "ic", "res", "gl", "meta", "nz")},
                              "expected_one_of": cands[:3]}
                     break
                 covered.add(cls(node, lab, nxt))
                 node = nxt
-            results.append({"trace": list(w.trace), "mon": list(w.mon), "drift": drift,
+            results.append({"header": header(w), "trace": list(w.trace), "mon": list(w.mon), "drift": drift,
                             "errors": {k: repr(v) for k, v in w.sched.errors.items()},
                             "results": {k: v[0] for k, v in w.results.items()}})
     return results, len(covered), len(all_edges)
